@@ -131,8 +131,8 @@ VERIF_TARGET(c55_persist, nullptr, 128, 1300,
              "the dump. The file is given clean, truncated (at a structural offset +-1 or anywhere), with one bit flipped (version, key, count, tx bytes, time, delta, map, set), with the "
              "count edited, or with trailing bytes, to a fresh node B at a load time that is the dump time, later, around the expiry boundary of a chosen entry (+-1 s) or beyond all; B "
              "may already hold a subset of the saved transactions and/or independent ones. A twin node C receives the same records through normal submission. non-trivial = >= 3 saved "
-             "entries incl. a prioritised and an unbroadcast one, and (some saved tx was NOT restored [expired/confirmed/conflicted] or a faulty file was partially loaded into a "
-             "non-empty pool); distinct = op kinds, fault kind/section, load-time mode, counts")
+             "entries incl. a prioritised or unbroadcast one, some entry restored, and (some saved tx NOT restored [expired/confirmed/conflicted/unreadable] or a faulty file loaded "
+             "into a non-empty pool); distinct = op kinds, fault kind/section, load-time mode, counts")
 {
     // ---------------- configuration
     MempoolSimOpts o;
@@ -202,6 +202,31 @@ VERIF_TARGET(c55_persist, nullptr, 128, 1300,
             GenTx g = a->GenOfKind(s, GenKind::PLAIN); // spare, not submitted on A (candidate for B's pre-existing pool)
             if (g.tx) spare.push_back(g.tx);
         }
+    }
+    // finishing touches: make prioritised / unbroadcast / absent-delta state likely
+    a->Sync();
+    if (!a->LastSnap().entries.empty()) {
+        if (s.chance(200)) {
+            auto it = a->LastSnap().entries.begin();
+            std::advance(it, s.index(a->LastSnap().entries.size()));
+            const Txid who = it->first;
+            const CAmount d = s.pick<CAmount>({333, -333, 123456});
+            a->Prioritise(who, d);
+            Note(st, "A prioritise entry ", who.ToString().substr(0, 8), " ", d);
+        }
+        if (s.chance(200)) {
+            a->Sync();
+            auto it = a->LastSnap().entries.begin();
+            std::advance(it, s.index(a->LastSnap().entries.size()));
+            const Txid who = it->first;
+            a->pool().AddUnbroadcastTx(who);
+            Note(st, "A unbroadcast ", who.ToString().substr(0, 8));
+        }
+    }
+    if (s.chance(128)) {
+        const Txid who = Txid::FromUint256(uint256{uint8_t(s.range<unsigned>(1, 250))});
+        a->Prioritise(who, 4242);
+        Note(st, "A prioritise absent ", who.ToString().substr(0, 8), " 4242");
     }
     const PoolSnap sa = a->Sync();
     const int64_t dump_now = a->Now();
@@ -450,6 +475,5 @@ VERIF_TARGET(c55_persist, nullptr, 128, 1300,
     if (fault_name != "clean" && restored && !rb.p0_in_pool.empty()) st.cls("faulty-partial-load-into-non-empty-pool");
     if (fault_name == "clean" && restored == pc.txs.size() && restored > 0) st.cls("clean-full-restore");
     st.mix(uint64_t(restored)); st.mix(uint64_t(not_restored));
-    st.nontrivial = pc.txs.size() >= 3 && has_prio && has_unb &&
-                    ((fault_name == "clean" && not_restored > 0 && restored > 0) || (fault_name != "clean" && restored > 0 && !rb.p0_in_pool.empty()));
+    st.nontrivial = pc.txs.size() >= 3 && (has_prio || has_unb) && restored > 0 && (not_restored > 0 || (fault_name != "clean" && !rb.p0_in_pool.empty()));
 }
